@@ -13,6 +13,7 @@ import (
 	"fmt"
 	"strings"
 
+	"github.com/icon-project/goloop/chain/base"
 	"github.com/icon-project/goloop/common"
 	"github.com/icon-project/goloop/common/log"
 	"github.com/icon-project/goloop/module"
@@ -172,14 +173,37 @@ func (e *l2Env) exec(txs []module.Transaction, level int) *l2Obs {
 	return o
 }
 
+// l2Opt varies how the block is run (used by C10).
+type l2Opt struct {
+	// Platform, if set, wraps the transition's platform (fault injection into the
+	// platform hooks called during block execution).
+	Platform func(base.Platform) base.Platform
+	// Patch puts the transactions into the patch list (always executed by
+	// executeTxsSequential) instead of the normal list.
+	Patch bool
+}
+
 func (e *l2Env) execInto(o *l2Obs, txs []module.Transaction, level int) {
+	e.execIntoOpt(o, txs, level, l2Opt{})
+}
+
+func (e *l2Env) execIntoOpt(o *l2Obs, txs []module.Transaction, level int, opt l2Opt) {
 	p := e.parent
 	tc := *p.transitionContext
 	tc.log = e.quiet
 	tc.chain = &l2Chain{Chain: p.chain, level: level}
+	if opt.Platform != nil {
+		tc.plt = opt.Platform(tc.plt)
+	}
 	txl := transaction.NewTransactionListFromSlice(p.db, txs)
 	bi := common.NewBlockInfo(e.fx.Height+1, 1000)
-	t := newTransition(p, nil, txl, bi, nil, true)
+	var t *transition
+	if opt.Patch {
+		t = newTransition(p, txl, nil, bi, nil, true)
+		// patchTransition sets the patch block info; executing needs none of it
+	} else {
+		t = newTransition(p, nil, txl, bi, nil, true)
+	}
 	t.transitionContext = &tc
 	t.cb = &l2Callback{o: o}
 	t.step = stepExecuting // what startExecution does for a validated transition
@@ -190,7 +214,11 @@ func (e *l2Env) execInto(o *l2Obs, txs []module.Transaction, level int) {
 	o.Result = hex.EncodeToString(t.result)
 	o.Hash = hex.EncodeToString(t.worldSnapshot.StateHash())
 	idx := 0
-	for it := t.normalReceipts.Iterator(); it.Has(); it.Next() {
+	rl := t.normalReceipts
+	if opt.Patch {
+		rl = t.patchReceipts
+	}
+	for it := rl.Iterator(); it.Has(); it.Next() {
 		r, err := it.Get()
 		if err != nil || r == nil {
 			o.Nil = append(o.Nil, idx)
